@@ -55,6 +55,14 @@ pub(crate) fn buf_init(globals: Weak<Globals>) {
     }
 }
 
+/// (a module context is currently placed, number of buffered events, globals are attached)
+#[cfg(petrichorit_des_verif)]
+pub(crate) fn verif_statics() -> (bool, usize, bool) {
+    let ctx = BUF_CTX.lock();
+    let placed = crate::net::module::try_current().is_some();
+    (placed, ctx.events.len(), ctx.globals.is_some())
+}
+
 pub(crate) fn buf_drop() {
     let mut ctx = BUF_CTX.lock();
     *ctx = BufferContext::new();
